@@ -223,6 +223,7 @@ type c20Result struct {
 	listing      []string
 	status       string
 	engaged      []byte // file data obtained by playing the matching client for real
+	silent       bool   // a connection that never spoke: nothing to judge
 }
 
 func (c20) Run(t *testing.T, scenario any, job *Job, res *Result) {
@@ -330,6 +331,13 @@ func (c20) Run(t *testing.T, scenario any, job *Job, res *Result) {
 				end := ln.Dial(fmt.Sprintf("198.51.100.%d:50000", 1+i), kernel.Unbounded, kernel.Unbounded)
 				end.WPipe().NonParking = true
 				end.RPipe().NonParking = true
+				if s.Op == "silent" {
+					// a peer that connects and never says a word (not even its SSH
+					// version string); the connection stays open to the end of the run
+					r.silent = true
+					sim.Run()
+					continue
+				}
 				sg := signers[s.Key]
 				if s.Op == "trick-auth" {
 					var decoy ssh.PublicKey
@@ -400,7 +408,7 @@ func (c20) Run(t *testing.T, scenario any, job *Job, res *Result) {
 	// judge
 	for i, s := range sc.Sessions {
 		r := results[i]
-		if r == nil {
+		if r == nil || r.silent {
 			continue
 		}
 		desc := fmt.Sprintf("mode=%s session %d op=%s cmd=%q chan=%q key=%+v ak_style=%d", sc.Mode, i, s.Op, subst(s.Cmd), s.Chan, sc.Keys[s.Key], sc.AKStyle)
